@@ -68,7 +68,11 @@ def add_metas(doc, dec, enc):
             m = ["e", H, "meta", [[None, "http-equiv", "content-type"]], []]
         else:
             m = ["e", H, "meta", [[None, "charset", lab], [None, "http-equiv", "content-type"], [None, "content", "text/html; charset=koi8-r"]], []]
-        if dec.below(6) == 0:
+        if dec.below(7) == 0:
+            # inside a noscript element in head (the parser is in its own insertion mode there)
+            head[4].insert(dec.below(len(head[4]) + 1), ["e", H, "noscript", [], [m]])
+            placements.append("head-noscript")
+        elif dec.below(6) == 0:
             body[4].insert(dec.below(len(body[4]) + 1), m)
             placements.append("body")
         else:
